@@ -40,6 +40,16 @@ CHECKS["C15"] = ("TLC-checked ownership contract (Ownership.tla exemption table)
 CHECKS["C18"] = ("TLC-checked dtype lattice and obligation table (Dtype.tla) + trace validation of the dtype of every returned array",
    "Dtype.tla defines the promotion lattice twice (Hasse diagram and NumPy's table) and TLC proves them equal plus the leak classification total; the obligation table lists per entry point which returned slots must keep the input dtype and the documented exemptions; the registry is run in float32, float64 and (where supported) complex128 and DtypeTrace.tla judges every returned array, naming the leak class.",
    "Only ndarray results are obliged (scalars are logged, not judged); NumPy backend only; the registry's list of complex-capable entry points follows the repository's tests.", "DESIGN.md 5/C18")
+
+CHECKS["C02"] = ("TLC-checked textbook index formulas over Gaussian integers (Multilinear.tla, cross-identities as theorems) + exact trace validation under both tenalg backends",
+   "Multilinear.tla writes mode_dot, multi_mode_dot, kronecker, khatri_rao, inner, outer, batched_outer, tensordot, MTTKRP (default and memory-efficient), higher_order_moment and sampled Khatri-Rao rows as index formulas over Gaussian integers; TLC checks cross-identities between them in every enumerated configuration (guarding the spec against its own typos). Every configuration of the spec-defined domain (operand orders 1-4, dims 1-3, all modes/options, must-raise families) is executed under the core AND the einsum backend with integer real and complex draws; MultilinearTrace.tla recomputes the formula and demands exact equality of shape and every entry.",
+   "Shapes/options enumerated (deterministically thinned by a spec-defined hash), operand values drawn from VERIF_SEED in -3..3 (multilinearity: thorough tier uses 8 draws); float64 arithmetic on these integers is exact; NumPy backend only.", "DESIGN.md 5/C02")
+CHECKS["C03"] = ("TLC-checked exact contraction semantics of the six tensor formats (Factorized.tla) + exact trace validation of every conversion/view, tuple and wrapper inputs, both tenalg backends",
+   "Factorized.tla defines CP / Tucker / TT / TR / TT-matrix / PARAFAC2 dense reconstructions, views, norms, shape/rank functions and validity predicates over exact integers; TLC checks theorems on the spec in every configuration (Gram-shortcut norm = sum of squares, unfolded view formula, TR with boundary 1 = TT, TR cyclicity, padding of uneven PARAFAC2 slices ...). Each configuration (orders 2-4, sizes 1-3, ranks 1-3, weights present/absent/negative, masks) is run through the real conversion functions and wrapper methods under both tenalg backends with integer factors; FactorizedTrace.tla demands exact equality of dense, every unfolding, vec, matrix, slices, shape, rank and norm, and that the three named invalid classes are rejected by validators and constructors.",
+   "Bounded shapes/ranks; integer factor values from VERIF_SEED (exact float64 arithmetic); NumPy backend only.", "DESIGN.md 5/C03")
+CHECKS["C04"] = ("TLC-checked relational transform specifications (Transforms.tla, reference transforms preserve dense + canonical form) + trace validation of measured outputs",
+   "Transforms.tla gives exact integer reference transforms (flip, normalise on axis inputs, permute, pad, mode products, projections) and TLC checks that each preserves the dense tensor, establishes its canonical form and is idempotent; acceptance predicates on measured outputs (dense equal to the spec's exact dense within 2e-5, unit columns, non-negative weights/summaries, padded ranks with kept boundary, aligned permutation where the optimum is unique, orthonormal projections). Every configuration incl. the degenerate inputs (zero / zero-mean columns, negative weights, rank 1) goes through cp_normalize, tucker_normalize, parafac2_normalise, cp_flip_sign, cp_permute_factors, pad_tt_rank, cp/tucker_mode_dot (matrix/vector, keep_dim, copy), CP->PARAFAC2 and SVD compress/decompress; TransformsTrace.tla judges each.",
+   "Outputs are floating point: compared quantised with the named tolerances of Transforms.tla; dense reconstructions of outputs are computed by numpy einsum in the harness; deterministic 1-in-6 thinning of large option products in the quick tier.", "DESIGN.md 5/C04")
 NOT_YET = {}
 
 def main():
